@@ -943,13 +943,13 @@ Qed.
 (* ------------------------------------------------------------------ *)
 (* environments *)
 
-Lemma scope_find_in : forall x sc v, scope_find x sc = Some v -> In v (map snd sc).
+Lemma scope_find_in : forall x (sc : scope) v, scope_find x sc = Some v -> In v (map snd sc).
 Proof.
   intros x sc v. induction sc as [|[y w] t IH]; cbn; [discriminate|].
   destruct (Nat.eqb x y); intros H; [inversion H; left; reflexivity|right; apply IH; exact H].
 Qed.
 
-Lemma env_find_in : forall x e v, env_find x e = Some v -> In v (env_vals e).
+Lemma env_find_in : forall x (e : list scope) v, env_find x e = Some v -> In v (env_vals e).
 Proof.
   intros x e v. induction e as [|sc t IH]; cbn [env_find]; [discriminate|].
   rewrite env_vals_cons. destruct (scope_find x sc) as [w|] eqn:E; intros H.
@@ -957,7 +957,7 @@ Proof.
   - apply in_or_app. right. apply IH. exact H.
 Qed.
 
-Lemma scope_set_perm : forall x w sc old sc1, scope_find x sc = Some old -> scope_set x w sc = Some sc1 ->
+Lemma scope_set_perm : forall x w (sc : scope) old sc1, scope_find x sc = Some old -> scope_set x w sc = Some sc1 ->
   exists R, Permutation (map snd sc) (old :: R) /\ Permutation (map snd sc1) (w :: R).
 Proof.
   intros x w. induction sc as [|[y u] t IH]; intros old sc1 Hf Hs; cbn in *; [discriminate|].
@@ -969,20 +969,20 @@ Proof.
     + eapply perm_trans; [apply perm_skip; exact H2|apply perm_swap].
 Qed.
 
-Lemma scope_set_none : forall x w sc, scope_find x sc = None -> scope_set x w sc = None.
+Lemma scope_set_none {A} : forall x (w : A) sc, scope_find x sc = None -> scope_set x w sc = None.
 Proof.
   intros x w. induction sc as [|[y u] t IH]; intros H; cbn in *; [reflexivity|].
   destruct (Nat.eqb x y); [discriminate|]. rewrite IH by exact H. reflexivity.
 Qed.
 
-Lemma scope_set_some : forall x w sc old, scope_find x sc = Some old -> exists sc1, scope_set x w sc = Some sc1.
+Lemma scope_set_some {A} : forall x (w : A) sc old, scope_find x sc = Some old -> exists sc1, scope_set x w sc = Some sc1.
 Proof.
   intros x w. induction sc as [|[y u] t IH]; intros old H; cbn in *; [discriminate|].
   destruct (Nat.eqb x y); [eexists; reflexivity|].
   destruct (IH _ H) as [t' Ht]. rewrite Ht. eexists; reflexivity.
 Qed.
 
-Lemma env_set_perm : forall x w e old e1, env_find x e = Some old -> env_set x w e = Some e1 ->
+Lemma env_set_perm : forall x w (e : list scope) old e1, env_find x e = Some old -> env_set x w e = Some e1 ->
   exists R, Permutation (env_vals e) (old :: R) /\ Permutation (env_vals e1) (w :: R).
 Proof.
   intros x w. induction e as [|sc t IH]; intros old e1 Hf Hs; cbn [env_find env_set] in *; [discriminate|].
@@ -999,7 +999,7 @@ Proof.
     + eapply perm_trans; [apply Permutation_app_head; exact H2|]. apply Permutation_sym. apply Permutation_middle.
 Qed.
 
-Lemma env_set_some : forall x w e old, env_find x e = Some old -> exists e1, env_set x w e = Some e1.
+Lemma env_set_some {A} : forall x (w : A) e old, env_find x e = Some old -> exists e1, env_set x w e = Some e1.
 Proof.
   intros x w. induction e as [|sc t IH]; intros old H; cbn [env_find env_set] in *; [discriminate|].
   destruct (scope_find x sc) as [u|] eqn:Efs.
@@ -1007,7 +1007,7 @@ Proof.
   - rewrite (scope_set_none _ _ _ Efs). destruct (IH _ H) as [t' Ht]. rewrite Ht. eexists; reflexivity.
 Qed.
 
-Lemma scope_set_twice : forall x w v sc sc1, scope_set x w sc = Some sc1 -> scope_set x v sc1 = scope_set x v sc.
+Lemma scope_set_twice {A} : forall x (w v : A) sc sc1, scope_set x w sc = Some sc1 -> scope_set x v sc1 = scope_set x v sc.
 Proof.
   intros x w v. induction sc as [|[y u] t IH]; intros sc1 H; cbn in *; [discriminate|].
   destruct (Nat.eqb x y) eqn:E.
@@ -1016,14 +1016,14 @@ Proof.
     rewrite (IH t' eq_refl). reflexivity.
 Qed.
 
-Lemma scope_set_find_none : forall x w sc sc1, scope_set x w sc = Some sc1 -> scope_find x sc <> None.
+Lemma scope_set_find_none {A} : forall x (w : A) sc sc1, scope_set x w sc = Some sc1 -> scope_find x sc <> None.
 Proof.
   intros x w. induction sc as [|[y u] t IH]; intros sc1 H; cbn in *; [discriminate|].
   destruct (Nat.eqb x y); [discriminate|].
   destruct (scope_set x w t) as [t'|] eqn:Et; [|discriminate]. eapply IH; eauto.
 Qed.
 
-Lemma env_set_twice : forall x w v e e1, env_set x w e = Some e1 -> env_set x v e1 = env_set x v e.
+Lemma env_set_twice {A} : forall x (w v : A) e e1, env_set x w e = Some e1 -> env_set x v e1 = env_set x v e.
 Proof.
   intros x w v. induction e as [|sc t IH]; intros e1 H; cbn [env_set] in *; [discriminate|].
   destruct (scope_set x w sc) as [sc1|] eqn:Es.
@@ -1809,3 +1809,873 @@ Proof.
   - apply mk_sim; eauto using env_any, vals_any, ctl_any.
     apply Forall2_app; [eauto using vals_any|]. constructor; [exact Ev'|constructor].
 Qed.
+
+(* ------------------------------------------------------------------ *)
+(* overwrite_slot: free the old value, then promote the new one *)
+
+Lemma good_free_hext : forall h s old t h1, Good h s (old :: t) -> return_to_pool h old = Some h1 ->
+  hext (avoid (ids old)) h h1 /\ Forall (vall (avoid (ids old))) (s ++ t) /\ h_frame h1 = h_frame h.
+Proof.
+  intros h s old t h1 HG Hr.
+  destruct (good_split_t _ _ _ _ HG) as (_ & _ & _ & _ & Hdisj).
+  destruct HG as (Hwf & _). destruct (return_to_pool_spec _ _ _ Hwf Hr) as (_ & Hext & (_ & _ & Hfr)).
+  split; [exact Hext|]. split; [|exact Hfr].
+  apply Forall_forall. intros w Hw. apply avoid_of_ids. intros i Hi Hio.
+  apply (Hdisj i Hio). apply in_flat_map. exists w. split; assumption.
+Qed.
+
+Lemma overwrite_core : forall h s old v t a, Good h s (old :: v :: t) -> erase h v = Some a ->
+  exists h1 h2 v', return_to_pool h old = Some h1 /\ promote h1 v = Some (h2, v') /\
+    Good h2 (v' :: s) t /\ erase h2 v' = Some a /\ hext (avoid (ids old)) h h2 /\
+    Forall (vall (avoid (ids old))) (s ++ t) /\ h_frame h2 = h_frame h.
+Proof.
+  intros h s old v t a HG Hv.
+  destruct (good_split_t _ _ _ _ HG) as (_ & (xo & Exo) & _).
+  destruct (return_to_pool h old) as [h1|] eqn:Er; [|exfalso; eapply return_to_pool_live; eauto].
+  destruct (good_free_hext _ _ _ _ _ HG Er) as (Hext1 & Hav & Hfr1).
+  pose proof (good_free_t _ _ _ _ _ HG Er) as HG2.
+  assert (Hv1 : erase h1 v = Some a).
+  { eapply erase_hext; [exact Hext1| |exact Hv]. rewrite Forall_forall in Hav. apply Hav.
+    apply in_or_app. right. left. reflexivity. }
+  destruct (good_split_t _ _ _ _ HG2) as (_ & _ & Hbv & Hnv & _).
+  destruct HG2 as (Hwf1 & HG2rest). pose proof (conj Hwf1 HG2rest) as HG2.
+  destruct (promote_spec v h1 a Hwf1 Hv1 Hbv Hnv) as (h2 & v' & Hp & Hpost).
+  pose proof Hpost as (Hwf2 & Hext2 & Ev' & Hnf' & _ & _ & _ & Hfr2).
+  exists h1, h2, v'. split; [reflexivity|]. split; [exact Hp|]. split.
+  { apply good_move_ts; [eapply good_promote_t; eauto|exact Hnf']. }
+  split; [exact Ev'|]. split.
+  { eapply hext_trans; [exact Hext1|]. eapply hext_weaken; [|exact Hext2]. intros; exact I. }
+  split; [|congruence].
+  apply Forall_forall. intros w Hw. rewrite Forall_forall in Hav. apply Hav.
+  apply in_app_or in Hw. apply in_or_app. destruct Hw as [Hw|Hw]; [left; exact Hw|right; right; exact Hw].
+Qed.
+
+Lemma Forall_perm_cons_null : forall (P : mvalue -> Prop) l R, Permutation l (MNull :: R) -> P MNull -> Forall P R -> Forall P l.
+Proof.
+  intros P l R Hp H0 HR. eapply Permutation_Forall; [apply Permutation_sym; exact Hp|]. constructor; assumption.
+Qed.
+
+Lemma vall_null : forall P, vall P MNull.
+Proof. intros P. constructor. Qed.
+
+Ltac ill := split; [intros E; cbv iota in E; discriminate|intros ? E; cbv iota in E; discriminate].
+
+Lemma step_assign : forall x, StepOK (OAssign x).
+Proof.
+  intros x. start. cbn [step m_tmps m_env m_heap].
+  destruct tmps as [|v rest]; [ill|].
+  inversion St as [|? a ? arest Hv Hrest]; subst.
+  pose proof (env_find_F2 _ x e ae Se) as Hf.
+  destruct (env_find x e) as [old|] eqn:Ef; [|ill].
+  destruct Hf as (aold & Hafind & Hold).
+  destruct (env_set_some x MNull e old Ef) as [em Hem].
+  destruct (env_set_perm x MNull e old em Ef Hem) as (R & HpR & HpM).
+  assert (HG1 : Good h (R ++ out) (old :: v :: rest ++ all_saved ctl)).
+  { apply good_move_st. eapply good_perm; [|apply Permutation_refl|exact HG].
+    change (old :: R ++ out) with ((old :: R) ++ out). apply Permutation_app_tail. exact HpR. }
+  destruct (overwrite_core _ _ _ _ _ _ HG1 Hv) as (h1 & h2 & v' & Er & Hp & HG2 & Ev' & Hext & Hav & Hfr).
+  unfold overwrite. rewrite Er, Hp.
+  destruct (env_set_some x v' e old Ef) as [e' He']. rewrite He'.
+  split; [discriminate|]. intros st' E. inversion E; subst. clear E.
+  apply Forall_app in Hav. destruct Hav as [HavRo Havt]. apply Forall_app in HavRo. destruct HavRo as [HavR Havo].
+  apply Forall_app in Havt. destruct Havt as [Havr Havs].
+  (* the environment, through the placeholder *)
+  destruct (env_set_F2 (vrel h) x MNull VNull e ae em Se eq_refl Hem) as (aem & Haem & Fem).
+  assert (Fem2 : Forall2 (Forall2 (prel (vrel h2))) em aem).
+  { eapply env_transfer; [exact Hext| |exact Fem].
+    eapply Forall_perm_cons_null; [exact HpM|apply vall_null|exact HavR]. }
+  assert (He'm : env_set x v' em = Some e') by (rewrite (env_set_twice _ _ v' _ _ Hem); exact He').
+  destruct (env_set_F2 (vrel h2) x v' a em aem e' Fem2 Ev' He'm) as (ae' & Hae' & Fe').
+  assert (Hae : aenv_set x a ae = Some ae') by (rewrite <- (env_set_twice _ _ a _ _ Haem); exact Hae').
+  cbn [astep a_env a_out a_tmps a_ctl]. rewrite Hafind, Hae. eexists. split; [reflexivity|]. split.
+  - apply mk_inv; [|rewrite Hfr; exact HC].
+    destruct (env_set_perm x v' e old e' Ef He') as (R' & HpR' & HpE').
+    eapply good_perm; [|apply Permutation_refl|exact HG2].
+    change (v' :: R ++ out) with ((v' :: R) ++ out). apply Permutation_app_tail.
+    apply Permutation_sym. eapply perm_trans; [exact HpE'|]. apply perm_skip.
+    eapply Permutation_cons_inv. eapply perm_trans; [apply Permutation_sym; exact HpR'|exact HpR].
+  - apply mk_sim; [exact Fe'| | |].
+    + eapply vrel_transfer; eauto.
+    + eapply vrel_transfer; eauto.
+    + eapply ctl_transfer; eauto.
+Qed.
+
+Lemma good_move_st_app : forall l h s t, Good h (l ++ s) t -> Good h s (l ++ t).
+Proof.
+  induction l as [|v l IH]; intros h s t H; [exact H|].
+  cbn [app] in *. apply good_move_st in H.
+  eapply good_perm; [apply Permutation_refl| |apply IH; eapply good_perm; [apply Permutation_refl| |exact H]].
+  - apply Permutation_sym. apply Permutation_middle.
+  - apply Permutation_refl.
+Qed.
+
+Lemma good_replace : forall h h' s olds news t, Good h s (olds ++ t) -> HeapWF h' -> hext anyref h h' ->
+  Forall (fun v => erase h' v <> None) news -> Forall (vall bsr) news ->
+  Permutation (flat_map ids news) (flat_map ids olds) -> Good h' s (news ++ t).
+Proof.
+  intros h h' s olds news t HG Hwf' Hext Hlive Hbs Hperm.
+  pose proof (good_drop_app _ _ _ _ HG) as HG0. pose proof (good_any _ _ _ _ HG0 Hwf' Hext) as (_ & Hl0 & Hn0 & Hf0 & Hb0).
+  destruct HG as (_ & _ & Hn & _ & _).
+  assert (Hp : forall l : list mvalue, Permutation (s ++ l ++ t) (l ++ s ++ t)).
+  { intros l. rewrite !app_assoc. apply Permutation_app_tail. apply Permutation_app_comm. }
+  refine (conj Hwf' (conj _ (conj _ (conj Hf0 _)))).
+  - eapply Permutation_Forall; [apply Permutation_sym; apply Hp|]. apply Forall_app. split; assumption.
+  - eapply Permutation_NoDup; [apply Permutation_flat_map; apply Permutation_sym; apply Hp|].
+    rewrite flat_map_app. eapply Permutation_NoDup; [apply Permutation_app_tail; apply Permutation_sym; exact Hperm|].
+    rewrite <- flat_map_app. eapply Permutation_NoDup; [apply Permutation_flat_map; apply Hp|exact Hn].
+  - eapply Permutation_Forall; [apply Permutation_sym; apply Hp|]. apply Forall_app. split; assumption.
+Qed.
+
+Lemma good_return_all2 : forall olds h s t, Good h s (olds ++ t) ->
+  exists h1, return_all h olds = Some h1 /\ Good h1 s t /\ same_bump h h1 /\
+    hext (avoid (flat_map ids olds)) h h1 /\ Forall (vall (avoid (flat_map ids olds))) (s ++ t).
+Proof.
+  intros olds h s t HG. pose proof HG as (Hwf & Hl & Hn & _ & _).
+  assert (Hp : Permutation (s ++ olds ++ t) (olds ++ s ++ t)).
+  { rewrite !app_assoc. apply Permutation_app_tail. apply Permutation_app_comm. }
+  pose proof (Permutation_Forall Hp Hl) as Hl1. apply Forall_app in Hl1. destruct Hl1 as [Hlo _].
+  pose proof (Permutation_NoDup (Permutation_flat_map ids Hp) Hn) as Hn1. rewrite flat_map_app in Hn1.
+  destruct (nodup_app_elim _ _ Hn1) as (Hno & _ & Hdisj).
+  destruct (return_all_spec olds h Hwf Hlo Hno) as (h1 & Hra & Hwf1 & Hext & Hsb).
+  assert (Hav : Forall (vall (avoid (flat_map ids olds))) (s ++ t)).
+  { apply Forall_forall. intros w Hw. apply avoid_of_ids. intros i Hi Hio.
+    apply (Hdisj i Hio). apply in_flat_map. exists w. split; assumption. }
+  exists h1. split; [exact Hra|]. split; [|split; [exact Hsb|split; [exact Hext|exact Hav]]].
+  eapply good_hext; [eapply good_drop_app; exact HG|exact Hwf1|exact Hext|exact Hav].
+Qed.
+
+Lemma floor_sim : forall Q (ctl : list ctl) (actl : list actl), Forall2 (crel Q) ctl actl ->
+  match ctl with [] => 0 | c :: _ => c_floor c end = match actl with [] => 0 | c :: _ => ac_floor c end.
+Proof. intros Q ctl actl H. destruct H as [|c ac ? ? (H1 & H2 & H3) _]; [reflexivity|exact H2]. Qed.
+
+Lemma step_popscope : StepOK OPopScope.
+Proof.
+  start. cbn [step m_env m_heap]. unfold floor_of. cbn [m_ctl m_out m_tmps].
+  destruct e as [|sc e0]; [ill|].
+  inversion Se as [|? asc ? ae0 Hsc Se0]; subst.
+  destruct (Nat.leb (match ctl with [] => 0 | c :: _ => c_floor c end) (length e0)) eqn:Efl; [|ill].
+  rewrite env_vals_cons, <- app_assoc in HG.
+  assert (HG1 : Good h (env_vals e0 ++ out) (rev (map snd sc) ++ tmps ++ all_saved ctl)).
+  { eapply good_perm; [apply Permutation_refl| |apply good_move_st_app; exact HG].
+    apply Permutation_app_tail. apply Permutation_rev. }
+  destruct (good_return_all2 _ _ _ _ HG1) as (h1 & Hra & HG2 & (_ & _ & Hfr) & Hext & Hav).
+  rewrite Hra. split; [discriminate|]. intros st' E. inversion E; subst. clear E.
+  apply Forall_app in Hav. destruct Hav as [Hav1 Hav2]. apply Forall_app in Hav1. destruct Hav1 as [Have Havo].
+  apply Forall_app in Hav2. destruct Hav2 as [Havt Havs].
+  cbn [astep a_env a_out a_tmps a_ctl]. unfold afloor_of. cbn [a_ctl].
+  assert (Hl : @length ascope ae0 = length e0) by (symmetry; eapply Forall2_len; eauto).
+  rewrite <- (floor_sim _ _ _ Sc).
+  rewrite Hl, Efl.
+  eexists. split; [reflexivity|]. split.
+  - apply mk_inv; [exact HG2|rewrite Hfr; exact HC].
+  - apply mk_sim.
+    + eapply env_transfer; eauto.
+    + eapply vrel_transfer; eauto.
+    + eapply vrel_transfer; eauto.
+    + eapply ctl_transfer; eauto.
+Qed.
+
+Lemma step_make : forall x, StepOK (OMake x).
+Proof.
+  intros x st ast Hinv Hsim.
+  destruct st as [h e out tmps ctl]. destruct ast as [ae aout atmps actl].
+  destruct tmps as [|v rest]; [cbn; ill|].
+  destruct e as [|sc e0]; [cbn; ill|].
+  pose proof Hsim as [Se So St Sc]. cbn [m_heap m_env m_out m_tmps m_ctl a_env a_out a_tmps a_ctl] in *.
+  inversion Se as [|? asc ? ae0 Hsc Se0]; subst. inversion St as [|? a ? arest Hv Hrest]; subst.
+  pose proof (scope_find_F2 _ x sc asc Hsc) as Hf.
+  destruct (scope_find x sc) as [old|] eqn:Ef.
+  - (* the variable exists in the innermost scope: same as an assignment *)
+    destruct Hf as (aold & Hafind & Hold).
+    assert (Hc : step cfg_repaired (mkSt h (sc :: e0) out (v :: rest) ctl) (OMake x) =
+                 step cfg_repaired (mkSt h (sc :: e0) out (v :: rest) ctl) (OAssign x)).
+    { cbn [step m_tmps m_env m_heap env_find env_set]. rewrite Ef.
+      destruct (overwrite h old v) as [[h1 v']|]; [|reflexivity].
+      destruct (scope_set_some x v' sc old Ef) as [sc1 Hsc1]. rewrite Hsc1. reflexivity. }
+    assert (Ha : astep (mkASt (asc :: ae0) aout (a :: arest) actl) (OMake x) =
+                 astep (mkASt (asc :: ae0) aout (a :: arest) actl) (OAssign x)).
+    { cbn [astep a_env a_out a_tmps a_ctl env_find env_set]. rewrite Hafind.
+      destruct (scope_set_some x a asc aold Hafind) as [asc1 Hasc1]. rewrite Hasc1. reflexivity. }
+    rewrite Hc, Ha. apply step_assign; assumption.
+  - (* a new variable *)
+    apply meminv_good in Hinv. unfold stored, temps in Hinv.
+    cbn [m_heap m_env m_out m_tmps m_ctl] in Hinv. destruct Hinv as [HG HC].
+    cbn [step m_tmps m_env m_heap]. rewrite Ef. cbn [app] in HG.
+    destruct (good_split_t _ _ _ _ HG) as (_ & _ & Hbv & Hnv & _).
+    destruct HG as (Hwf & HGrest). pose proof (conj Hwf HGrest) as HG.
+    destruct (promote_spec v h a Hwf Hv Hbv Hnv) as (h1 & v' & Hp & Hpost).
+    rewrite Hp. split; [discriminate|]. intros st' E. inversion E; subst. clear E.
+    pose proof Hpost as (Hwf1 & Hext & Ev' & Hnf' & _ & _ & _ & Hfr).
+    cbn [astep a_env a_out a_tmps a_ctl]. rewrite Hf. eexists. split; [reflexivity|]. split.
+    + apply mk_inv; [|rewrite Hfr; exact HC].
+      change (env_vals (((x, v') :: sc) :: e0) ++ out) with (v' :: env_vals (sc :: e0) ++ out).
+      apply good_move_ts; [eapply good_promote_t; eauto|exact Hnf'].
+    + apply mk_sim; [|eauto using vals_any|eauto using vals_any|eauto using ctl_any].
+      constructor; [|eapply env_any; eauto].
+      constructor; [split; [reflexivity|exact Ev']|].
+      assert (Hsc' : Forall2 (Forall2 (prel (vrel h1))) [sc] [asc]) by (eapply env_any; eauto).
+      inversion Hsc'; assumption.
+Qed.
+
+(* ------------------------------------------------------------------ *)
+(* replacing the value of one variable *)
+
+Lemma env_root_setup : forall h x (e : list scope) out T root, env_find x e = Some root ->
+  Good h (env_vals e ++ out) T ->
+  exists em R, env_set x MNull e = Some em /\ Permutation (env_vals e) (root :: R) /\
+    Permutation (env_vals em) (MNull :: R) /\ Good h (R ++ out) (root :: T) /\ vall nf root.
+Proof.
+  intros h x e out T root Ef HG.
+  destruct (env_set_some x MNull e root Ef) as [em Hem].
+  destruct (env_set_perm x MNull e root em Ef Hem) as (R & HpR & HpM).
+  exists em, R. split; [exact Hem|]. split; [exact HpR|]. split; [exact HpM|].
+  assert (HG' : Good h ((root :: R) ++ out) T).
+  { eapply good_perm; [|apply Permutation_refl|exact HG]. apply Permutation_app_tail. exact HpR. }
+  split; [apply good_move_st; exact HG'|].
+  destruct HG' as (_ & _ & _ & Hnf & _). inversion Hnf; assumption.
+Qed.
+
+Lemma env_root_finish : forall h x (e : list scope) out T root root' R e',
+  env_find x e = Some root -> Permutation (env_vals e) (root :: R) -> env_set x root' e = Some e' ->
+  Good h (R ++ out) (root' :: T) -> vall nf root' -> Good h (env_vals e' ++ out) T.
+Proof.
+  intros h x e out T root root' R e' Ef HpR He' HG Hnf.
+  destruct (env_set_perm x root' e root e' Ef He') as (R' & HpR' & HpE').
+  eapply good_perm; [|apply Permutation_refl|apply good_move_ts; [exact HG|exact Hnf]].
+  change (root' :: R ++ out) with ((root' :: R) ++ out). apply Permutation_app_tail.
+  apply Permutation_sym. eapply perm_trans; [exact HpE'|]. apply perm_skip.
+  eapply Permutation_cons_inv. eapply perm_trans; [apply Permutation_sym; exact HpR'|exact HpR].
+Qed.
+
+Lemma env_replace_sim : forall P h h' x (e em e' : list scope) (ae : list ascope) R root' aroot',
+  Forall2 (Forall2 (prel (vrel h))) e ae -> env_set x MNull e = Some em ->
+  Permutation (env_vals em) (MNull :: R) -> hext P h h' -> Forall (vall P) R ->
+  erase h' root' = Some aroot' -> env_set x root' e = Some e' ->
+  exists ae', aenv_set x aroot' ae = Some ae' /\ Forall2 (Forall2 (prel (vrel h'))) e' ae'.
+Proof.
+  intros P h h' x e em e' ae R root' aroot' Se Hem HpM Hext HR Er He'.
+  destruct (env_set_F2 (vrel h) x MNull VNull e ae em Se eq_refl Hem) as (aem & Haem & Fem).
+  assert (Fem2 : Forall2 (Forall2 (prel (vrel h'))) em aem).
+  { eapply env_transfer; [exact Hext| |exact Fem].
+    eapply Forall_perm_cons_null; [exact HpM|apply vall_null|exact HR]. }
+  assert (He'm : env_set x root' em = Some e') by (rewrite (env_set_twice _ _ root' _ _ Hem); exact He').
+  destruct (env_set_F2 (vrel h') x root' aroot' em aem e' Fem2 Er He'm) as (ae' & Hae' & Fe').
+  exists ae'. split; [|exact Fe']. rewrite <- (env_set_twice _ _ aroot' _ _ Haem). exact Hae'.
+Qed.
+
+Lemma step_storeidx : forall x path i, StepOK (OStoreIdx x path i).
+Proof.
+  intros x path i. start. cbn [step m_tmps m_env m_heap].
+  destruct tmps as [|v rest]; [ill|].
+  inversion St as [|? a ? arest Hv Hrest]; subst. cbn [app] in HG.
+  destruct (good_split_t _ _ _ _ HG) as (_ & _ & Hbv & Hnv & _).
+  destruct HG as (Hwf & HGrest). pose proof (conj Hwf HGrest) as HG.
+  destruct (promote_spec v h a Hwf Hv Hbv Hnv) as (h1 & v1 & Hp & Hpost).
+  rewrite Hp. pose proof Hpost as (Hwf1 & Hext1 & Ev1 & Hnf1 & Hbs1 & _ & _ & Hfr1).
+  pose proof (good_promote_t _ _ _ _ _ _ _ HG Hv Hpost) as HG1.
+  pose proof (env_find_F2 _ x e ae Se) as Hf.
+  destruct (env_find x e) as [root|] eqn:Ef; [|ill].
+  destruct Hf as (aroot & Hafind & Hroot).
+  destruct (env_root_setup _ _ _ _ _ _ Ef HG1) as (em & R & Hem & HpR & HpM & HG2 & Hnfroot).
+  assert (Hroot1 : erase h1 root = Some aroot) by (eapply erase_hext; eauto using vall_any).
+  destruct (good_split_t _ _ _ _ HG2) as (_ & _ & Hbsroot & _ & _).
+  destruct (modify_at_ok _ _ (f_set i v1) (af_set i a) (val_pre v1 a) (ids v1) ids val_res
+              (fun h0 v0 a0 => f_set_ok i v1 a h0 v0 a0) path h1 root aroot
+              (conj Ev1 (conj Hnf1 Hbs1)) Hwf1 Hroot1 Hnfroot Hbsroot) as [Hnofault Hok].
+  destruct (modify_at (f_set i v1) path h1 root) as [[[h2 root'] old]| |] eqn:Em; cbn [mbind];
+    [|ill|exfalso; apply Hnofault; reflexivity].
+  destruct (Hok _ _ _ eq_refl) as (aroot' & aold & Ham & Hwf2 & Hext2 & Hfr2 & Eroot' & (Eold & Hnfold & Hbsold) & Hnfroot' & Hbsroot' & Hperm).
+  assert (HG3 : Good h2 (R ++ out) (old :: root' :: rest ++ all_saved ctl)).
+  { apply (good_replace h1 h2 (R ++ out) [root; v1] [old; root']); [exact HG2|exact Hwf2|exact Hext2| | |].
+    - constructor; [rewrite Eold; discriminate|constructor; [rewrite Eroot'; discriminate|constructor]].
+    - constructor; [exact Hbsold|constructor; [exact Hbsroot'|constructor]].
+    - cbn [flat_map]. rewrite !app_nil_r. apply perm_trans with (ids root' ++ ids old); [apply Permutation_app_comm|exact Hperm]. }
+  destruct (return_to_pool h2 old) as [h3|] eqn:Er; [|split; [|intros ? E; discriminate];
+    exfalso; eapply return_to_pool_live; eauto].
+  destruct (good_free_hext _ _ _ _ _ HG3 Er) as (Hext3 & Hav & Hfr3).
+  pose proof (good_free_t _ _ _ _ _ HG3 Er) as HG4.
+  destruct (env_set_some x root' e root Ef) as [e' He']. rewrite He'.
+  split; [discriminate|]. intros st' E. inversion E; subst. clear E.
+  apply Forall_app in Hav. destruct Hav as [HavRo Havt]. apply Forall_app in HavRo. destruct HavRo as [HavR Havo].
+  inversion Havt as [|? ? Havroot' Havt']; subst. apply Forall_app in Havt'. destruct Havt' as [Havr Havs].
+  assert (Hext12 : hext anyref h h2) by (eapply hext_trans; eauto).
+  assert (Eroot3 : erase h3 root' = Some aroot') by (eapply erase_hext; eauto).
+  destruct (env_replace_sim _ h2 h3 x e em e' ae R root' aroot' (env_any _ _ _ _ Hext12 Se) Hem HpM Hext3 HavR Eroot3 He')
+    as (ae' & Hae' & Fe').
+  cbn [astep a_env a_out a_tmps a_ctl]. rewrite Hafind, Ham, Hae'. eexists. split; [reflexivity|]. split.
+  - apply mk_inv; [|rewrite Hfr3, Hfr2, Hfr1; exact HC].
+    eapply env_root_finish; eauto.
+  - apply mk_sim; [exact Fe'| | |].
+    + eapply vrel_transfer; [exact Hext3|exact Havo|eauto using vals_any].
+    + eapply vrel_transfer; [exact Hext3|exact Havr|eauto using vals_any].
+    + eapply ctl_transfer; [exact Hext3|exact Havs|eauto using ctl_any].
+Qed.
+
+Lemma step_push : forall x path, StepOK (OPush x path).
+Proof.
+  intros x path. start. cbn [step m_tmps m_env m_heap].
+  destruct tmps as [|v rest]; [ill|].
+  inversion St as [|? a ? arest Hv Hrest]; subst. cbn [app] in HG.
+  destruct (good_split_t _ _ _ _ HG) as (_ & _ & Hbv & Hnv & _).
+  destruct HG as (Hwf & HGrest). pose proof (conj Hwf HGrest) as HG.
+  destruct (promote_spec v h a Hwf Hv Hbv Hnv) as (h1 & v1 & Hp & Hpost).
+  rewrite Hp. pose proof Hpost as (Hwf1 & Hext1 & Ev1 & Hnf1 & Hbs1 & _ & _ & Hfr1).
+  pose proof (good_promote_t _ _ _ _ _ _ _ HG Hv Hpost) as HG1.
+  pose proof (env_find_F2 _ x e ae Se) as Hf.
+  destruct (env_find x e) as [root|] eqn:Ef; [|ill].
+  destruct Hf as (aroot & Hafind & Hroot).
+  destruct (env_root_setup _ _ _ _ _ _ Ef HG1) as (em & R & Hem & HpR & HpM & HG2 & Hnfroot).
+  assert (Hroot1 : erase h1 root = Some aroot) by (eapply erase_hext; eauto using vall_any).
+  destruct (good_split_t _ _ _ _ HG2) as (_ & _ & Hbsroot & _ & _).
+  destruct (modify_at_ok _ _ (f_push v1) (af_push a) (val_pre v1 a) (ids v1) (fun _ => []) (fun _ _ _ => True)
+              (fun h0 v0 a0 => f_push_ok v1 a h0 v0 a0) path h1 root aroot
+              (conj Ev1 (conj Hnf1 Hbs1)) Hwf1 Hroot1 Hnfroot Hbsroot) as [Hnofault Hok].
+  destruct (modify_at (f_push v1) path h1 root) as [[[h2 root'] u]| |] eqn:Em; cbn [mbind];
+    [|ill|exfalso; apply Hnofault; reflexivity].
+  destruct (Hok _ _ _ eq_refl) as (aroot' & au & Ham & Hwf2 & Hext2 & Hfr2 & Eroot' & _ & Hnfroot' & Hbsroot' & Hperm).
+  assert (HG3 : Good h2 (R ++ out) (root' :: rest ++ all_saved ctl)).
+  { apply (good_replace h1 h2 (R ++ out) [root; v1] [root']); [exact HG2|exact Hwf2|exact Hext2| | |].
+    - constructor; [rewrite Eroot'; discriminate|constructor].
+    - constructor; [exact Hbsroot'|constructor].
+    - cbn [flat_map]. rewrite !app_nil_r. rewrite app_nil_r in Hperm. exact Hperm. }
+  destruct (env_set_some x root' e root Ef) as [e' He']. rewrite He'.
+  split; [discriminate|]. intros st' E. inversion E; subst. clear E.
+  assert (Hext12 : hext anyref h h2) by (eapply hext_trans; eauto).
+  destruct (env_replace_sim anyref h2 h2 x e em e' ae R root' aroot' (env_any _ _ _ _ Hext12 Se) Hem HpM
+              (hext_refl _ _) (Forall_vall_any R) Eroot' He') as (ae' & Hae' & Fe').
+  cbn [astep a_env a_out a_tmps a_ctl]. rewrite Hafind, Ham, Hae'. eexists. split; [reflexivity|]. split.
+  - apply mk_inv; [|rewrite Hfr2, Hfr1; exact HC]. eapply env_root_finish; eauto.
+  - apply mk_sim; [exact Fe'|eauto using vals_any|eauto using vals_any|eauto using ctl_any].
+Qed.
+
+Lemma step_pop : forall x path, StepOK (OPop x path).
+Proof.
+  intros x path. start. cbn [step m_tmps m_env m_heap].
+  pose proof (env_find_F2 _ x e ae Se) as Hf.
+  destruct (env_find x e) as [root|] eqn:Ef; [|ill].
+  destruct Hf as (aroot & Hafind & Hroot).
+  destruct (env_root_setup _ _ _ _ _ _ Ef HG) as (em & R & Hem & HpR & HpM & HG2 & Hnfroot).
+  destruct (good_split_t _ _ _ _ HG2) as (_ & _ & Hbsroot & _ & _).
+  destruct HG as (Hwf & HGrest). pose proof (conj Hwf HGrest) as HG.
+  destruct (modify_at_ok _ _ f_pop af_pop (fun _ => True) [] ids val_res
+              (fun h0 v0 a0 => f_pop_ok h0 v0 a0) path h root aroot I Hwf Hroot Hnfroot Hbsroot) as [Hnofault Hok].
+  destruct (modify_at f_pop path h root) as [[[h2 root'] r]| |] eqn:Em; cbn [mbind];
+    [|ill|exfalso; apply Hnofault; reflexivity].
+  destruct (Hok _ _ _ eq_refl) as (aroot' & ar & Ham & Hwf2 & Hext2 & Hfr2 & Eroot' & (Er & Hnfr & Hbsr) & Hnfroot' & Hbsroot' & Hperm).
+  assert (HG3 : Good h2 (R ++ out) (root' :: r :: tmps ++ all_saved ctl)).
+  { apply (good_replace h h2 (R ++ out) [root] [root'; r]); [exact HG2|exact Hwf2|exact Hext2| | |].
+    - constructor; [rewrite Eroot'; discriminate|constructor; [rewrite Er; discriminate|constructor]].
+    - constructor; [exact Hbsroot'|constructor; [exact Hbsr|constructor]].
+    - cbn [flat_map]. rewrite !app_nil_r. rewrite app_nil_r in Hperm. exact Hperm. }
+  destruct (env_set_some x root' e root Ef) as [e' He']. rewrite He'.
+  split; [discriminate|]. intros st' E. inversion E; subst. clear E.
+  destruct (env_replace_sim anyref h2 h2 x e em e' ae R root' aroot' (env_any _ _ _ _ Hext2 Se) Hem HpM
+              (hext_refl _ _) (Forall_vall_any R) Eroot' He') as (ae' & Hae' & Fe').
+  cbn [astep a_env a_out a_tmps a_ctl]. rewrite Hafind, Ham, Hae'. eexists. split; [reflexivity|]. split.
+  - apply mk_inv; [|rewrite Hfr2; exact HC].
+    change ((r :: tmps) ++ all_saved ctl) with (r :: tmps ++ all_saved ctl). eapply env_root_finish; eauto.
+  - apply mk_sim; [exact Fe'|eauto using vals_any| |eauto using ctl_any].
+    constructor; [exact Er|eauto using vals_any].
+Qed.
+
+(* ------------------------------------------------------------------ *)
+(* loops and calls *)
+
+Lemma nf_vall_below : forall m l, Forall (vall nf) l -> Forall (vall (below m)) l.
+Proof.
+  intros m l H. eapply Forall_impl; [|exact H]. intros v Hv. eapply Forall_impl; [|exact Hv].
+  intros rf Hrf. apply nf_below. exact Hrf.
+Qed.
+
+Lemma live_vall_below : forall h l, Forall (fun v => erase h v <> None) l -> Forall (vall (below (length (h_frame h)))) l.
+Proof.
+  intros h l H. eapply Forall_impl; [|exact H]. intros v Hv.
+  destruct (erase h v) as [x|] eqn:E; [|congruence]. eapply erase_below; eauto.
+Qed.
+
+Lemma step_loopiter : StepOK OLoopIter.
+Proof.
+  start. split; [discriminate|]. intros st' E. cbn in E. inversion E; subst. clear E.
+  cbn [astep a_env a_out a_tmps a_ctl]. eexists. split; [reflexivity|]. split.
+  - apply mk_inv; [exact HG|]. cbn [CtlOK c_mark c_saved]. split; [lia|]. split; [|exact HC].
+    apply live_vall_below. destruct HG as (_ & Hl & _). apply Forall_app in Hl. destruct Hl as [_ Hl].
+    apply Forall_app in Hl. tauto.
+  - apply mk_sim; [exact Se|exact So|constructor|]. constructor; [|exact Sc].
+    split; [reflexivity|]. split; [cbn; eapply Forall2_len; eauto|exact St].
+Qed.
+
+Lemma step_callbegin : StepOK OCallBegin.
+Proof.
+  start. split; [discriminate|]. intros st' E. cbn in E. inversion E; subst. clear E.
+  cbn [astep a_env a_out a_tmps a_ctl]. eexists. split; [reflexivity|]. split.
+  - apply mk_inv; [exact HG|]. cbn [CtlOK c_mark c_saved]. split; [lia|]. split; [|exact HC].
+    apply live_vall_below. destruct HG as (_ & Hl & _). apply Forall_app in Hl. destruct Hl as [_ Hl].
+    apply Forall_app in Hl. tauto.
+  - apply mk_sim; [|exact So|constructor|].
+    + constructor; [constructor|exact Se].
+    + constructor; [|exact Sc].
+      split; [reflexivity|]. split; [cbn; f_equal; eapply Forall2_len; eauto|exact St].
+Qed.
+
+Lemma firstn_length_le {A} : forall (l : list A) m, m <= length l -> length (firstn m l) = m.
+Proof. intros l m H. rewrite firstn_length. lia. Qed.
+
+Lemma step_loopiterend : StepOK OLoopIterEnd.
+Proof.
+  start. cbn [step m_ctl m_tmps m_env m_heap].
+  destruct ctl as [|cr rest]; [ill|]. destruct tmps as [|? ?]; [|ill].
+  inversion Sc as [|? acr ? arest (Hloop & Hfloor & Hsaved) Sc']; subst. inversion St; subst.
+  destruct (c_loop cr && Nat.eqb (length e) (c_floor cr)) eqn:Econd; [|ill].
+  split; [discriminate|]. intros st' E. inversion E; subst. clear E.
+  destruct HC as (Hmark & Hbelow & HCrest). cbn [app all_saved flat_map] in HG.
+  assert (HP : Forall (vall (below (c_mark cr))) ((env_vals e ++ out) ++ c_saved cr ++ all_saved rest)).
+  { apply Forall_app. split; [apply nf_vall_below; apply HG|].
+    apply Forall_app. split; [exact Hbelow|apply ctlok_saved_below; exact HCrest]. }
+  pose proof (hext_frame_reset h (c_mark cr)) as Hext.
+  assert (Hwf' : HeapWF (frame_reset h (c_mark cr))) by (apply heapwf_frame; apply HG).
+  apply Forall_app in HP. destruct HP as [HPs HPt]. apply Forall_app in HPs. destruct HPs as [HPe HPo].
+  apply Forall_app in HPt. destruct HPt as [HPc HPr].
+  assert (Hl : @length ascope ae = length e) by (symmetry; eapply Forall2_len; eauto).
+  cbn [astep a_env a_out a_tmps a_ctl]. rewrite <- Hloop, <- Hfloor, Hl, Econd.
+  eexists. split; [reflexivity|]. split.
+  - apply mk_inv.
+    + eapply good_hext; [exact HG|exact Hwf'|exact Hext|].
+      apply Forall_app. split; apply Forall_app; split; assumption.
+    + cbn [frame_reset set_frame h_frame]. rewrite firstn_length_le by exact Hmark. exact HCrest.
+  - apply mk_sim.
+    + eapply env_transfer; eauto.
+    + eapply vrel_transfer; eauto.
+    + eapply vrel_transfer; eauto.
+    + eapply ctl_transfer; eauto.
+Qed.
+
+Lemma step_loopexit : StepOK OLoopExit.
+Proof.
+  start. cbn [step m_ctl m_tmps m_env m_heap].
+  destruct ctl as [|cr rest]; [ill|].
+  inversion Sc as [|? acr ? arest (Hloop & Hfloor & Hsaved) Sc']; subst.
+  destruct (c_loop cr && Nat.eqb (length e) (c_floor cr)) eqn:Econd; [|ill].
+  split; [discriminate|]. intros st' E. inversion E; subst. clear E.
+  destruct HC as (Hmark & Hbelow & HCrest). cbn [all_saved flat_map] in HG.
+  assert (Hl : @length ascope ae = length e) by (symmetry; eapply Forall2_len; eauto).
+  cbn [astep a_env a_out a_tmps a_ctl]. rewrite <- Hloop, <- Hfloor, Hl, Econd.
+  eexists. split; [reflexivity|]. split.
+  - apply mk_inv; [|eapply ctlok_mono; eauto]. rewrite <- app_assoc. exact HG.
+  - apply mk_sim; [exact Se|exact So|apply Forall2_app; assumption|exact Sc'].
+Qed.
+
+Lemma bind_args_ok : forall xs vs (sc : scope) h s t avs (asc : ascope),
+  length xs = length vs -> Good h (map snd sc ++ s) (vs ++ t) ->
+  Forall2 (vrel h) vs avs -> Forall2 (prel (vrel h)) sc asc ->
+  exists h1 sc', bind_args true h xs vs sc = Some (h1, sc') /\ Good h1 (map snd sc' ++ s) t /\
+    hext anyref h h1 /\ h_frame h1 = h_frame h /\ Forall2 (prel (vrel h1)) sc' (abind_args xs avs asc).
+Proof.
+  induction xs as [|x xs IH]; intros vs sc h s t avs asc Hlen HG Hvs Hsc.
+  - destruct vs; [|discriminate]. inversion Hvs; subst. exists h, sc. cbn.
+    split; [reflexivity|]. split; [exact HG|]. split; [apply hext_refl|]. split; [reflexivity|exact Hsc].
+  - destruct vs as [|v vs]; [discriminate|]. inversion Hvs as [|? a ? avs' Hv Hvs']; subst.
+    cbn [app] in HG. destruct (good_split_t _ _ _ _ HG) as (_ & _ & Hbv & Hnv & _).
+    destruct HG as (Hwf & HGrest). pose proof (conj Hwf HGrest) as HG.
+    destruct (promote_spec v h a Hwf Hv Hbv Hnv) as (h1 & v' & Hp & Hpost).
+    pose proof Hpost as (Hwf1 & Hext1 & Ev' & Hnf' & _ & _ & _ & Hfr1).
+    pose proof (good_move_ts _ _ _ _ (good_promote_t _ _ _ _ _ _ _ HG Hv Hpost) Hnf') as HG1.
+    assert (Hsc1 : Forall2 (prel (vrel h1)) ((x, v') :: sc) ((x, a) :: asc)).
+    { constructor; [split; [reflexivity|exact Ev']|].
+      assert (Hx : Forall2 (Forall2 (prel (vrel h1))) [sc] [asc]) by (eapply env_any; eauto).
+      inversion Hx; assumption. }
+    destruct (IH vs ((x, v') :: sc) h1 s t avs' ((x, a) :: asc)) as (h2 & sc' & Hb & HG2 & Hext2 & Hfr2 & Hsc2).
+    + cbn in Hlen. lia.
+    + exact HG1.
+    + eapply vals_any; eauto.
+    + exact Hsc1.
+    + exists h2, sc'. cbn [bind_args abind_args]. rewrite Hp. split; [exact Hb|]. split; [exact HG2|].
+      split; [eapply hext_trans; eauto|]. split; [congruence|exact Hsc2].
+Qed.
+
+Lemma step_callbind : forall xs, StepOK (OCallBind xs).
+Proof.
+  intros xs. start. cbn [step m_ctl m_tmps m_env m_heap cfg_repaired c_promote_params].
+  destruct ctl as [|cr rest]; [ill|]. destruct e as [|sc e0]; [ill|].
+  inversion Sc as [|? acr ? arest (Hloop & Hfloor & Hsaved) Sc']; subst.
+  inversion Se as [|? asc ? ae0 Hsc Se0]; subst.
+  destruct (negb (c_loop cr) && Nat.eqb (length (sc :: e0)) (c_floor cr) && Nat.eqb (length xs) (length tmps)) eqn:Econd; [|ill].
+  assert (Hlen : length xs = length (rev tmps)).
+  { rewrite rev_length. apply Nat.eqb_eq. apply andb_prop in Econd. tauto. }
+  rewrite env_vals_cons, <- app_assoc in HG.
+  assert (HG1 : Good h (map snd sc ++ env_vals e0 ++ out) (rev tmps ++ all_saved (cr :: rest))).
+  { eapply good_perm; [apply Permutation_refl| |exact HG]. apply Permutation_app_tail. apply Permutation_rev. }
+  destruct (bind_args_ok xs (rev tmps) sc h _ _ (rev atmps) asc Hlen HG1 (Forall2_rev _ _ _ St) Hsc)
+    as (h1 & sc' & Hb & HG2 & Hext & Hfr & Hsc').
+  rewrite Hb. split; [discriminate|]. intros st' E. inversion E; subst. clear E.
+  assert (Hl : @length ascope (asc :: ae0) = length (sc :: e0)) by (symmetry; eapply Forall2_len; eauto).
+  assert (Hlt : @length value atmps = length tmps) by (symmetry; eapply Forall2_len; eauto).
+  cbn [astep a_env a_out a_tmps a_ctl]. rewrite <- Hloop, <- Hfloor, Hl, Hlt, Econd.
+  eexists. split; [reflexivity|]. split.
+  - apply mk_inv; [|rewrite Hfr; exact HC]. rewrite env_vals_cons, <- app_assoc. exact HG2.
+  - apply mk_sim; [|eauto using vals_any|constructor|eauto using ctl_any].
+    constructor; [exact Hsc'|eapply env_any; eauto].
+Qed.
+
+Lemma good_relocate : forall h S rv T arv mark, Good h S (rv :: T) -> erase h rv = Some arv ->
+  Forall (vall (below mark)) (S ++ T) -> mark <= length (h_frame h) ->
+  exists h2 rv', relocate true h rv mark = Some (h2, rv') /\ Good h2 S (rv' :: T) /\
+    erase h2 rv' = Some arv /\ hext (below mark) h h2 /\ mark <= length (h_frame h2).
+Proof.
+  intros h S rv T arv mark HG Hrv HP Hmark.
+  destruct (good_split_t _ _ _ _ HG) as (HG0 & _ & Hbv & Hnv & Hdisj).
+  destruct HG as (Hwf & _).
+  destruct (relocate_spec h rv arv mark Hwf Hrv Hbv Hnv Hmark) as (h2 & rv' & Hr & Hwf2 & Hext & Erv' & Hbs' & Hnd' & Hids' & Hm2).
+  exists h2, rv'. split; [exact Hr|]. split; [|split; [exact Erv'|split; [exact Hext|exact Hm2]]].
+  apply good_join_t.
+  - eapply good_hext; eauto.
+  - rewrite Erv'. discriminate.
+  - exact Hbs'.
+  - exact Hnd'.
+  - intros i Hi Hi2. destruct (Hids' _ Hi) as [H1|H1].
+    + eapply Hdisj; eauto.
+    + apply H1. eapply good_roots_live; eauto.
+Qed.
+
+Lemma step_callend : StepOK OCallEnd.
+Proof.
+  start. cbn [step m_ctl m_tmps m_env m_heap cfg_repaired c_stage].
+  destruct ctl as [|cr rest]; [ill|]. destruct e as [|psc e0]; [ill|].
+  inversion Sc as [|? acr ? arest (Hloop & Hfloor & Hsaved) Sc']; subst.
+  inversion Se as [|? apsc ? ae0 Hpsc Se0]; subst.
+  destruct (negb (c_loop cr) && Nat.eqb (length (psc :: e0)) (c_floor cr)) eqn:Econd; [|ill].
+  destruct HC as (Hmark & Hbelow & HCrest). cbn [all_saved flat_map] in HG.
+  (* the pending return value *)
+  assert (Hrv : exists rv arv, (match tmps with [] => Some MNull | [v] => Some v | _ => None end) = Some rv ->
+            True) by (exists MNull, VNull; auto).
+  clear Hrv.
+  destruct (match tmps with [] => Some MNull | [v] => Some v | _ :: _ :: _ => None end) as [rv|] eqn:Erv; [|ill].
+  assert (Harv : exists arv, (match atmps with [] => Some VNull | [v] => Some v | _ :: _ :: _ => None end) = Some arv /\
+                    erase h rv = Some arv /\
+                    Good h (env_vals (psc :: e0) ++ out) (rv :: c_saved cr ++ all_saved rest)).
+  { destruct tmps as [|v [|v2 tl]]; inversion Erv; subst.
+    - inversion St; subst. exists VNull. split; [reflexivity|]. split; [reflexivity|].
+      cbn [app] in HG. apply good_new_t; auto; [discriminate|constructor].
+    - inversion St as [|? a ? ? Hv Hnil]; subst. inversion Hnil; subst. exists a.
+      split; [reflexivity|]. split; [exact Hv|exact HG]. }
+  destruct Harv as (arv & Haerv & Hrv & HG0).
+  rewrite env_vals_cons, <- app_assoc in HG0.
+  assert (HG1 : Good h (env_vals e0 ++ out) (rev (map snd psc) ++ rv :: c_saved cr ++ all_saved rest)).
+  { eapply good_perm; [apply Permutation_refl| |apply good_move_st_app; exact HG0].
+    apply Permutation_app_tail. apply Permutation_rev. }
+  destruct (good_return_all2 _ _ _ _ HG1) as (h1 & Hra & HG2 & (_ & _ & Hfr1) & Hext1 & Hav).
+  rewrite Hra.
+  apply Forall_app in Hav. destruct Hav as [Hav1 Hav2]. apply Forall_app in Hav1. destruct Hav1 as [Have Havo].
+  inversion Hav2 as [|? ? Havrv Hav3]; subst. apply Forall_app in Hav3. destruct Hav3 as [Havc Havr].
+  assert (Hrv1 : erase h1 rv = Some arv) by (eapply erase_hext; eauto).
+  assert (HP : Forall (vall (below (c_mark cr))) ((env_vals e0 ++ out) ++ c_saved cr ++ all_saved rest)).
+  { apply Forall_app. split; [apply nf_vall_below; apply HG2|].
+    apply Forall_app. split; [exact Hbelow|apply ctlok_saved_below; exact HCrest]. }
+  assert (Hmark1 : c_mark cr <= length (h_frame h1)) by (rewrite Hfr1; exact Hmark).
+  destruct (good_relocate _ _ _ _ _ _ HG2 Hrv1 HP Hmark1) as (h2 & rv' & Hrel & HG3 & Erv' & Hext2 & Hm2).
+  rewrite Hrel. split; [discriminate|]. intros st' E. inversion E; subst. clear E.
+  apply Forall_app in HP. destruct HP as [HPs HPt]. apply Forall_app in HPs. destruct HPs as [HPe HPo].
+  apply Forall_app in HPt. destruct HPt as [HPc HPr].
+  assert (Hl : @length ascope (apsc :: ae0) = length (psc :: e0)) by (symmetry; eapply Forall2_len; eauto).
+  cbn [astep a_env a_out a_tmps a_ctl]. rewrite <- Hloop, <- Hfloor, Hl, Econd, Haerv.
+  eexists. split; [reflexivity|]. split.
+  - apply mk_inv; [exact HG3|]. eapply ctlok_mono; eauto.
+  - apply mk_sim.
+    + eapply env_transfer; [exact Hext2|exact HPe|]. eapply env_transfer; eauto.
+    + eapply vrel_transfer; [exact Hext2|exact HPo|]. eapply vrel_transfer; eauto.
+    + constructor; [exact Erv'|]. eapply vrel_transfer; [exact Hext2|exact HPc|]. eapply vrel_transfer; eauto.
+    + eapply ctl_transfer; [exact Hext2|exact HPr|]. eapply ctl_transfer; eauto.
+Qed.
+
+(* ------------------------------------------------------------------ *)
+(* every op, every history *)
+
+Lemma step_ok : forall o, StepOK o.
+Proof.
+  destruct o.
+  - apply step_scalar.
+  - apply step_lit.
+  - apply step_read.
+  - apply step_interp.
+  - apply step_concat.
+  - apply step_mkarr.
+  - apply step_index.
+  - apply step_drop.
+  - apply step_promote.
+  - apply step_make.
+  - apply step_assign.
+  - apply step_storeidx.
+  - apply step_push.
+  - apply step_pop.
+  - apply step_shout.
+  - apply step_pushscope.
+  - apply step_popscope.
+  - apply step_callbegin.
+  - apply step_callbind.
+  - apply step_callend.
+  - apply step_loopiter.
+  - apply step_loopiterend.
+  - apply step_loopexit.
+Qed.
+
+Lemma run_ok : forall ops st ast, MemInv st -> Sim st ast ->
+  run cfg_repaired st ops <> MFault /\
+  (forall st', run cfg_repaired st ops = MOk st' ->
+     exists ast', arun ast ops = Some ast' /\ MemInv st' /\ Sim st' ast').
+Proof.
+  induction ops as [|o ops IH]; intros st ast Hinv Hsim.
+  - cbn. split; [discriminate|]. intros st' E. inversion E; subst. exists ast. auto.
+  - cbn [run arun]. destruct (step_ok o st ast Hinv Hsim) as [Hnf Hok].
+    destruct (step cfg_repaired st o) as [st1| |] eqn:Es.
+    + destruct (Hok st1 eq_refl) as (ast1 & Ha & Hinv1 & Hsim1). rewrite Ha.
+      apply IH; assumption.
+    + split; [discriminate|]. intros st' E. discriminate.
+    + exfalso. apply Hnf. reflexivity.
+Qed.
+
+Lemma init_inv : MemInv init_state.
+Proof.
+  constructor; cbn.
+  - apply empty_heap_wf.
+  - constructor.
+  - constructor.
+  - constructor.
+  - constructor.
+  - exact I.
+Qed.
+
+Lemma init_sim : Sim init_state ainit.
+Proof. constructor; cbn; repeat constructor. Qed.
+
+Lemma meminv_reachable_lemma : forall ops,
+  run cfg_repaired init_state ops <> MFault /\
+  (forall st, run cfg_repaired init_state ops = MOk st ->
+     MemInv st /\ exists ast, arun ainit ops = Some ast /\ Sim st ast).
+Proof.
+  intros ops. destruct (run_ok ops init_state ainit init_inv init_sim) as [H1 H2].
+  split; [exact H1|]. intros st E. destruct (H2 st E) as (ast & Ha & Hi & Hs).
+  split; [exact Hi|]. exists ast. auto.
+Qed.
+
+(* what the executable tie prints: the framed machine either rejects the sequence as
+   ill-formed or prints exactly what the reclamation-free machine prints *)
+Lemma all_some_Forall2 : forall h (l : list mvalue) (xs : list value),
+  Forall2 (vrel h) l xs -> all_some (map (erase h) l) = Some xs.
+Proof.
+  intros h l xs H. induction H as [|v a l xs Hv Hl IH]; [reflexivity|].
+  cbn [map all_some fold_right]. unfold all_some in IH. rewrite IH, Hv. reflexivity.
+Qed.
+
+Lemma observe_agrees_lemma : forall ops,
+  observe cfg_repaired ops = VIll \/
+  exists vs, observe cfg_repaired ops = VOk vs /\ aobserve ops = Some vs.
+Proof.
+  intros ops. unfold observe, aobserve. destruct (meminv_reachable_lemma ops) as [Hnf Hok].
+  destruct (run cfg_repaired init_state ops) as [st| |] eqn:Er.
+  - right. destruct (Hok st eq_refl) as (_ & ast & Ha & Hs). rewrite Ha.
+    exists (a_out ast). split; [|reflexivity].
+    rewrite (all_some_Forall2 _ _ _ (sim_out _ _ _ Hs)). reflexivity.
+  - left. reflexivity.
+  - exfalso. apply Hnf. reflexivity.
+Qed.
+
+(* ------------------------------------------------------------------ *)
+(* the named per-operation statements *)
+
+Lemma promote_no_frame_refs_lemma : forall h v x, HeapWF h -> erase h v = Some x -> vall bsr v -> NoDup (ids v) ->
+  exists h' v', promote h v = Some (h', v') /\ erase h' v' = Some x /\ vall nf v' /\ vall bsr v' /\
+    HeapWF h' /\ h_frame h' = h_frame h.
+Proof.
+  intros h v x Hwf He Hbs Hnd.
+  destruct (promote_spec v h x Hwf He Hbs Hnd) as (h' & v' & Hp & Hwf' & _ & Ev' & Hnf & Hbs' & _ & _ & Hfr).
+  exists h', v'. auto 10.
+Qed.
+
+Lemma env_find_set_other {A} : forall x y (w : A) e e', x <> y -> env_set x w e = Some e' -> env_find y e' = env_find y e.
+Proof.
+  intros x y w. 
+  assert (Hsc : forall sc sc', x <> y -> scope_set x w sc = Some sc' -> scope_find y sc' = scope_find y sc).
+  { induction sc as [|[z u] t IH]; intros sc' Hne H; cbn in *; [discriminate|].
+    destruct (Nat.eqb x z) eqn:Exz.
+    - inversion H; subst. cbn. apply Nat.eqb_eq in Exz. subst z.
+      destruct (Nat.eqb y x) eqn:Eyx; [apply Nat.eqb_eq in Eyx; congruence|reflexivity].
+    - destruct (scope_set x w t) as [t'|] eqn:Et; [|discriminate]. inversion H; subst. cbn.
+      destruct (Nat.eqb y z); [reflexivity|]. apply IH; auto. }
+  induction e as [|sc t IH]; intros e' Hne H; cbn [env_set] in H; [discriminate|].
+  destruct (scope_set x w sc) as [sc'|] eqn:Es.
+  - inversion H; subst. cbn [env_find]. rewrite (Hsc _ _ Hne Es). reflexivity.
+  - destruct (env_set x w t) as [t'|] eqn:Et; [|discriminate]. inversion H; subst. cbn [env_find].
+    rewrite (IH t' Hne eq_refl). reflexivity.
+Qed.
+
+Lemma overwrite_safe_lemma : forall st ast x st', MemInv st -> Sim st ast ->
+  step cfg_repaired st (OAssign x) = MOk st' ->
+  MemInv st' /\ m_out st' = m_out st /\
+  (forall y v a, y <> x -> env_find y (m_env st) = Some v -> erase (m_heap st) v = Some a ->
+     exists v', env_find y (m_env st') = Some v' /\ erase (m_heap st') v' = Some a) /\
+  (forall v a, In v (m_out st) -> erase (m_heap st) v = Some a -> erase (m_heap st') v = Some a).
+Proof.
+  intros st ast x st' Hinv Hsim Hstep.
+  destruct (step_assign x st ast Hinv Hsim) as [_ Hok].
+  destruct (Hok st' Hstep) as (ast' & Ha & Hinv' & Hsim').
+  split; [exact Hinv'|].
+  assert (Hout : m_out st' = m_out st /\ a_out ast' = a_out ast /\
+                 exists v0 a0, env_set x v0 (m_env st) = Some (m_env st') /\ aenv_set x a0 (a_env ast) = Some (a_env ast')).
+  { destruct st as [h e out tmps ctl]. destruct ast as [ae aout atmps actl].
+    cbn [step m_tmps m_env m_heap m_out m_ctl] in Hstep. cbn [astep a_env a_out a_tmps a_ctl] in Ha.
+    destruct tmps as [|v rest]; [discriminate|].
+    destruct (env_find x e) as [old|]; [|discriminate].
+    destruct (overwrite h old v) as [[h1 v']|]; [|discriminate].
+    destruct (env_set x v' e) as [e'|] eqn:Ee; [|discriminate]. inversion Hstep; subst. cbn.
+    destruct atmps as [|a arest]; [discriminate|].
+    destruct (env_find x ae) as [aold|]; [|discriminate].
+    destruct (env_set x a ae) as [ae'|] eqn:Eae; [|discriminate]. inversion Ha; subst. cbn.
+    split; [reflexivity|]. split; [reflexivity|]. exists v', a. split; assumption. }
+  destruct Hout as (Ho & Hao & v0 & a0 & Hes & Haes).
+  split; [exact Ho|]. split.
+  - intros y v a Hne Hf Hv.
+    pose proof (env_find_F2 _ y _ _ (sim_env _ _ _ Hsim)) as H1. rewrite Hf in H1.
+    destruct H1 as (a1 & Haf & Hva). unfold vrel in Hva. assert (a1 = a) by congruence. subst a1.
+    pose proof (env_find_F2 _ y _ _ (sim_env _ _ _ Hsim')) as H2.
+    rewrite (env_find_set_other x y v0 _ _ (not_eq_sym Hne) Hes), Hf in H2.
+    assert (Hx : env_find y (m_env st') = Some v) by (rewrite (env_find_set_other x y v0 _ _ (not_eq_sym Hne) Hes); exact Hf).
+    exists v. split; [exact Hx|].
+    pose proof (env_find_F2 _ y _ _ (sim_env _ _ _ Hsim')) as H3. rewrite Hx in H3.
+    destruct H3 as (a3 & Haf3 & Hva3). rewrite (env_find_set_other x y a0 _ _ (not_eq_sym Hne) Haes) in Haf3.
+    unfold vrel in Hva3. congruence.
+  - intros v a Hin Hv.
+    pose proof (sim_out _ _ _ Hsim) as So. pose proof (sim_out _ _ _ Hsim') as So'. rewrite Ho, Hao in So'.
+    clear - Hin Hv So So'. revert So'. induction So as [|w b l bl Hwb Hl IH]; intros So'; [destruct Hin|].
+    inversion So' as [|? ? ? ? Hwb' Hl']; subst. destruct Hin as [<-|Hin].
+    + unfold vrel in *. congruence.
+    + apply IH; assumption.
+Qed.
+
+Lemma pop_scope_safe_lemma : forall st ast st', MemInv st -> Sim st ast ->
+  step cfg_repaired st OPopScope = MOk st' ->
+  MemInv st' /\ exists ast', astep ast OPopScope = Some ast' /\ Sim st' ast'.
+Proof.
+  intros st ast st' Hinv Hsim Hstep. destruct (step_popscope st ast Hinv Hsim) as [_ Hok].
+  destruct (Hok st' Hstep) as (ast' & Ha & Hinv' & Hsim'). split; [exact Hinv'|]. exists ast'. auto.
+Qed.
+
+Lemma loop_reset_safe_lemma : forall st st', MemInv st -> step cfg_repaired st OLoopIterEnd = MOk st' ->
+  m_env st' = m_env st /\ m_out st' = m_out st /\
+  (exists cr rest, m_ctl st = cr :: rest /\ m_heap st' = frame_reset (m_heap st) (c_mark cr)) /\
+  (forall v a, In v (stored st) -> erase (m_heap st) v = Some a -> erase (m_heap st') v = Some a).
+Proof.
+  intros [h e out tmps ctl] st' Hinv Hstep. cbn [step m_ctl m_tmps m_env m_heap m_out] in Hstep.
+  destruct ctl as [|cr rest]; [discriminate|]. destruct tmps; [|discriminate].
+  destruct (c_loop cr && Nat.eqb (length e) (c_floor cr)); [|discriminate]. inversion Hstep; subst. cbn.
+  split; [reflexivity|]. split; [reflexivity|]. split; [exists cr, rest; auto|].
+  intros v a Hin Hv. eapply erase_hext; [apply (hext_set_frame_nf h)| |exact Hv].
+  pose proof (inv_nf _ Hinv) as Hnf. rewrite Forall_forall in Hnf. apply Hnf. exact Hin.
+Qed.
+
+Lemma relocate_sound_lemma : forall h v x mark, HeapWF h -> erase h v = Some x -> vall bsr v -> NoDup (ids v) ->
+  mark <= length (h_frame h) ->
+  exists h' v', relocate true h v mark = Some (h', v') /\ erase h' v' = Some x /\ HeapWF h' /\
+    hext (below mark) h h' /\ mark <= length (h_frame h').
+Proof.
+  intros h v x mark Hwf He Hbs Hnd Hm.
+  destruct (relocate_spec h v x mark Hwf He Hbs Hnd Hm) as (h' & v' & Hr & Hwf' & Hext & Ev' & _ & _ & _ & Hm').
+  exists h', v'. auto 10.
+Qed.
+
+(* ------------------------------------------------------------------ *)
+(* promote, for arbitrary live values (Borrowed aliases into the frame or a pool slot included,
+   as they existed before 8134a3d): the result has no frame reference and no such alias *)
+
+Definition promote_gen_ok (v : mvalue) : Prop :=
+  forall h x, HeapWF h -> erase h v = Some x ->
+  exists h' v', promote h v = Some (h', v') /\ HeapWF h' /\ hext anyref h h' /\ erase h' v' = Some x /\
+    vall nf v' /\ vall nbp v' /\ h_frame h' = h_frame h.
+
+Lemma promote_gen_list : forall l, Forall promote_gen_ok l ->
+  forall h xs, HeapWF h -> erase_list h l = Some xs ->
+  exists h' l', map_heap promote h l = Some (h', l') /\ HeapWF h' /\ hext anyref h h' /\
+    erase_list h' l' = Some xs /\ Forall (vall nf) l' /\ Forall (vall nbp) l' /\ h_frame h' = h_frame h.
+Proof.
+  induction l as [|v t IH]; intros HF h xs Hwf He.
+  - exists h, []. cbn in *. inversion He; subst.
+    refine (conj eq_refl (conj Hwf (conj (hext_refl _ _) (conj eq_refl (conj _ (conj _ eq_refl)))))); constructor.
+  - inversion HF as [|? ? Hv Ht]; subst. rewrite erase_list_cons in He.
+    destruct (erase h v) as [y|] eqn:Ey; [|discriminate].
+    destruct (erase_list h t) as [ys|] eqn:Eys; [|discriminate]. inversion He; subst. clear He.
+    destruct (Hv h y Hwf Ey) as (h1 & v' & Hp & Hwf1 & Hext1 & Ev' & Hnf' & Hnb' & Hfr1).
+    assert (Eys1 : erase_list h1 t = Some ys) by (eapply erase_list_hext; eauto using Forall_vall_any).
+    destruct (IH Ht h1 ys Hwf1 Eys1) as (h2 & t' & Hm & Hwf2 & Hext2 & Et' & Hnft & Hnbt & Hfr2).
+    exists h2, (v' :: t'). cbn [map_heap]. rewrite Hp. fold (map_heap promote). rewrite Hm.
+    split; [reflexivity|]. split; [exact Hwf2|]. split; [eapply hext_trans; eauto|]. split.
+    { rewrite erase_list_cons. rewrite (erase_hext _ _ _ Hext2 v' y (vall_any _) Ev'), Et'. reflexivity. }
+    split; [constructor; assumption|]. split; [constructor; assumption|congruence].
+Qed.
+
+Lemma promote_gen : forall v, promote_gen_ok v.
+Proof.
+  assert (Hsame : forall h v x, HeapWF h -> erase h v = Some x -> vall nf v -> vall nbp v ->
+            promote h v = Some (h, v) ->
+            exists h' v', promote h v = Some (h', v') /\ HeapWF h' /\ hext anyref h h' /\ erase h' v' = Some x /\
+              vall nf v' /\ vall nbp v' /\ h_frame h' = h_frame h).
+  { intros h v x Hwf He Hnf Hnb Hp. exists h, v. auto 10 using hext_refl. }
+  assert (Hcopy : forall h b, HeapWF h ->
+            exists h' v', alloc_str h b = (h', v') /\ HeapWF h' /\ hext anyref h h' /\ erase h' v' = Some (VStr b) /\
+              vall nf v' /\ vall nbp v' /\ h_frame h' = h_frame h).
+  { intros h b Hwf. destruct (alloc_str h b) as [h' v'] eqn:Ea.
+    destruct (alloc_str_spec _ _ _ _ Hwf Ea) as (Hwf' & Hext & Ev' & Hfr & Hnf & Hbs' & _ & _).
+    exists h', v'. refine (conj eq_refl (conj Hwf' (conj Hext (conj Ev' (conj Hnf (conj _ Hfr)))))).
+    eapply Forall_impl; [|exact Hbs']. intros rf Hrf. destruct rf as [[|] r a len|r a sid]; cbn in *; auto.
+    subst r. exact I. }
+  induction v as [x|b| |r a len|r a len cap|r a sid cap items IH] using mvalue_ind'; intros h y Hwf He.
+  - apply Hsame; auto; constructor.
+  - apply Hsame; auto; constructor.
+  - apply Hsame; auto; constructor.
+  - destruct r.
+    + apply Hsame; auto; (constructor; [cbn; try discriminate; exact I|constructor]).
+    + apply Hsame; auto; (constructor; [cbn; try discriminate; exact I|constructor]).
+    + cbn [erase] in He. destruct (read_bytes h RFrame a len) as [b|] eqn:Er; [|discriminate]. inversion He; subst.
+      destruct (Hcopy h b Hwf) as (h' & v' & Ea & Hrest). exists h', v'. cbn [promote]. rewrite Er, Ea. auto.
+    + cbn [erase] in He. destruct (read_bytes h RPool a len) as [b|] eqn:Er; [|discriminate]. inversion He; subst.
+      destruct (Hcopy h b Hwf) as (h' & v' & Ea & Hrest). exists h', v'. cbn [promote]. rewrite Er, Ea. auto.
+  - destruct r.
+    + apply Hsame; auto; (constructor; [cbn; try discriminate; exact I|constructor]).
+    + apply Hsame; auto; (constructor; [cbn; try discriminate; exact I|constructor]).
+    + cbn [erase] in He. destruct (read_bytes h RFrame a len) as [b|] eqn:Er; [|discriminate]. inversion He; subst.
+      destruct (Hcopy h b Hwf) as (h' & v' & Ea & Hrest). exists h', v'. cbn [promote]. rewrite Er, Ea. auto.
+    + apply Hsame; auto; (constructor; [cbn; try discriminate; exact I|constructor]).
+  - rewrite erase_arr in He. destruct (store_live h r a sid) eqn:Es; [|discriminate].
+    destruct (erase_list h items) as [ys|] eqn:El; [|discriminate]. inversion He; subst. clear He.
+    cbn [promote]. rewrite Es.
+    destruct (fresh_sid h) as [h0 sid'] eqn:Ef. destruct (pers_alloc h0 (OVec sid')) as [h1 a'] eqn:Ep.
+    assert (Hh0 : h0 = fst (fresh_sid h)) by (rewrite Ef; reflexivity).
+    assert (Hh1 : h1 = fst (pers_alloc h0 (OVec sid'))) by (rewrite Ep; reflexivity).
+    assert (Hext01 : hext anyref h h1).
+    { eapply hext_trans; [apply hext_fresh_sid|]. rewrite <- Hh0. rewrite Hh1. apply hext_pers_alloc. }
+    assert (Hwf1 : HeapWF h1).
+    { rewrite Hh1. cbn. apply heapwf_pers. rewrite Hh0. apply heapwf_fresh_sid. exact Hwf. }
+    assert (El1 : erase_list h1 items = Some ys) by (eapply erase_list_hext; eauto using Forall_vall_any).
+    destruct (promote_gen_list items IH h1 ys Hwf1 El1) as (h2 & items' & Hm & Hwf2 & Hext2 & Et' & Hnft & Hnbt & Hfr2).
+    rewrite Hm. exists h2, (MArr RPers a' sid' (length items) items'). split; [reflexivity|].
+    assert (Ha' : a' = length (h_pers h0)) by (cbn in Ep; inversion Ep; reflexivity).
+    assert (Hlive1 : rd h1 (RefS RPers a' sid') = Some []).
+    { apply store_live_rd. rewrite Hh1, Ha'. unfold store_live. cbn.
+      rewrite nth_error_snoc_new. rewrite Nat.eqb_refl. reflexivity. }
+    split; [exact Hwf2|]. split; [eapply hext_trans; eauto|]. split.
+    { rewrite erase_arr. apply (Hext2 _ _ I) in Hlive1. apply store_live_rd in Hlive1.
+      rewrite Hlive1, Et'. reflexivity. }
+    split; [apply vall_arr; split; [cbn; discriminate|exact Hnft]|].
+    split; [apply vall_arr; split; [exact I|exact Hnbt]|].
+    rewrite Hfr2, Hh1. cbn. rewrite Hh0. reflexivity.
+Qed.
+
+(* ------------------------------------------------------------------ *)
+(* the source as it is today (flags regenerated by translator/gen_mem.py) *)
+Require Import NS.theories.GenMem NS.theories.MemSrc.
+
+Lemma source_discipline_lemma : source_discipline = true /\ cfg_source = cfg_repaired.
+Proof. split; reflexivity. Qed.
+
+Lemma meminv_reachable_source_lemma : forall ops,
+  run cfg_source init_state ops <> MFault /\
+  (forall st, run cfg_source init_state ops = MOk st ->
+     MemInv st /\ exists ast, arun ainit ops = Some ast /\ Sim st ast).
+Proof. intros ops. rewrite (proj2 source_discipline_lemma). apply meminv_reachable_lemma. Qed.
